@@ -4,7 +4,7 @@ From Coq Require Import List NArith Bool Relations.
 From SV Require Import lib.Bytes lib.Closure model.Graph model.GraphDump model.GraphInv model.GraphTree model.GraphTreeInv
   model.GraphCheck model.GraphExt gen.GenGraph gen.GenWriters
   proofs.GraphNodes proofs.GraphProofs proofs.GraphTables proofs.GraphTrans proofs.GraphTreeSim proofs.GraphTreeOps proofs.GraphStepTrans proofs.GraphFileTrans
-  proofs.GraphExtP proofs.GraphExtFull proofs.GraphExtRevert proofs.GraphCheckP proofs.GraphWriters.
+  proofs.GraphExtP proofs.GraphExtFull proofs.GraphExtRevert proofs.GraphExtTrans proofs.GraphExtFileTrans proofs.GraphCheckP proofs.GraphWriters.
 Import ListNotations.
 Open Scope N_scope.
 
@@ -603,3 +603,37 @@ Proof. vm_compute. split; reflexivity. Qed.
 Theorem C09_undefer_both_forms :
   forall refined s s', inv_b s' = true -> inv_b (undefer_post_with refined s s') = true.
 Proof. exact undefer_both_forms. Qed.
+
+(* transitions_documented for the whole alphabet op_x (the 15 operations through the top layer with the
+   re-attachment trigger and validate's flag, the consistency check, the seven new operations): a step
+   row that exists before and after a transaction moves along step_move_x_b -- the table of the older
+   layers; SUCCEEDED / FAILED -> PENDING by the propagation (consistency check, nglob invalidation, bulk
+   marking); PENDING assigned to the subject of the overtaken skip, to the steps selected by
+   revert_optional_steps, to the boot step; RUNNING -> FAILED and CHECKING -> PENDING in the first
+   transaction of reset_interrupted_steps; nothing in a frame transaction. *)
+Theorem C09_x_step_transitions_documented :
+  forall o s l a b, inv_core_b s = true ->
+    sstate_of l s = Some a -> sstate_of l (apply_op_x s o) = Some b -> step_move_x_b o l a b = true.
+Proof. exact step_transitions_documented_x. Qed.
+
+(* ... and a file row moves along file_move_x_b: the tables of the older layers (closure of the
+   _HASH_TRANSITIONS rows and BUILT <-> OUTDATED for the non-declaring operations, File.initialize_row for
+   the declaring ones); revert_optional_steps: unchanged or BUILT / OUTDATED -> PLANNED (a VOLATILE output
+   stays VOLATILE); initialize_boot: declaring part, hash result, declaring part -- PARTIAL: the composed table
+   boot_trans_b admits every pair, the statement says nothing for OpInitBoot (a per-label frame is missing); the other new
+   operations only along the non-declaring table; a frame transaction: unchanged. *)
+Theorem C09_x_file_transitions_documented :
+  forall o s l r r', inv_core_b s = true ->
+    find_file l s = Some r -> find_file l (apply_op_x s o) = Some r' -> file_move_x_b o (fstt r) (fstt r') = true.
+Proof. exact file_transitions_documented_x. Qed.
+
+Example C09_x_moves_exclude :
+  step_move_x_b (OpRevertOptional [[65]]) [66] SRunning SPending = false /\
+  step_move_x_b (OpSkipOvertaken [65]) [65] SChecking SRunning = false /\
+  step_move_x_b OpResetInterruptedRaw [65] SSucceeded SFailed = false /\
+  step_move_x_b OpFrame [65] SSucceeded SPending = false /\
+  file_move_x_b (OpRevertOptional [[65]]) FVolatile FPlanned = false /\
+  file_move_x_b (OpRevertOptional [[65]]) FConfirmed FPlanned = false /\
+  file_move_x_b (OpInvalidateSteps [[65]]) FUndeclared FPlanned = false /\
+  file_move_x_b (OpRevertOptional [[65]]) FBuilt FPlanned = true.
+Proof. vm_compute. repeat split; reflexivity. Qed.
